@@ -90,6 +90,12 @@ class WcMatch(Generic[AnyStr]):
         empty = os.fsencode('') if isinstance(root_dir, bytes) else ''
         self.pattern_file = file_pattern if file_pattern is not None else empty  # type: AnyStr
         self.pattern_folder_exclude = exclude_pattern if exclude_pattern is not None else empty  # type: AnyStr
+        for pattern in (self.pattern_file, self.pattern_folder_exclude):
+            # Mixed types would otherwise only surface as errors swallowed during the walk
+            if not isinstance(pattern, type(empty)):
+                raise TypeError(
+                    f"The root directory and patterns should be of the same type, not {type(root_dir)} and {type(pattern)}"
+                )
         self.file_check = None  # type: _wcmatch.WcRegexp[AnyStr] | None
         self.folder_exclude_check = None  # type: _wcmatch.WcRegexp[AnyStr] | None
         self.on_init(**kwargs)
